@@ -76,6 +76,7 @@ pub fn build(_ctl: &'static Ctrl, params: &Value) -> Instance {
         opts,
         actors,
         custom: Box::new(|_, _| {}),
+        unstick: Box::new(|| {}),
         check: Box::new(move |out: &Outcome| {
             let mut v = vec![];
             for b in sh3.bad.lock().unwrap().iter() {
